@@ -852,7 +852,56 @@ fn verdicts(s: &Setup, node: &Node, c: &Cand, clear_cache: bool) -> Verdict {
     Verdict { pool, accepted, ext, passed_tx_rules }
 }
 
+/// Thorough tier: nodes with a tx-pool service cannot be torn down inside a process (their
+/// databases live in RAM-backed scratch), so the contexts are spread over short child processes
+/// whose shard evidence the driver merges (`<ID>.part-<k>.json`).
+fn run_sharded(args: &Args) -> i32 {
+    let total = args.get_u64("contexts", 200);
+    let per = 20u64;
+    let shards = total.div_ceil(per);
+    let out = std::env::var("VERIF_OUT_DIR").map(std::path::PathBuf::from).unwrap_or_else(|_| vbase::verif_root().join("evidence"));
+    let exe = std::env::current_exe().expect("current exe");
+    let deadline = Instant::now() + Duration::from_secs(args.get_u64("budget_s", 1500));
+    let mut code = 0;
+    let mut ran = 0;
+    for k in 0..shards {
+        if Instant::now() > deadline {
+            break;
+        }
+        let dir = out.join(format!("tx-shard-{k}"));
+        let _ = std::fs::create_dir_all(&dir);
+        let status = std::process::Command::new(&exe)
+            .arg("tx")
+            .arg("--seed").arg((args.seed.wrapping_mul(1000) + k).to_string())
+            .arg("--tier").arg("thorough")
+            .arg("--props").arg(args.props.join(","))
+            .arg(format!("contexts={per}"))
+            .arg("shard=1")
+            .arg("budget_s=400")
+            .env("VERIF_OUT_DIR", &dir)
+            .status();
+        let c = match status {
+            Ok(st) => st.code().unwrap_or(2),
+            Err(_) => 2,
+        };
+        for id in ["C04", "C14"] {
+            let f = dir.join(format!("{id}.json"));
+            if f.exists() {
+                let _ = std::fs::rename(&f, out.join(format!("{id}.part-{k}.json")));
+            }
+        }
+        let _ = std::fs::remove_dir_all(&dir);
+        code = code.max(if c == 0 || c == 1 || c == 2 { c } else { 2 });
+        ran += 1;
+    }
+    eprintln!("[tx] {ran} shard process(es) of {per} contexts, worst exit code {code}");
+    code
+}
+
 pub fn run(args: &Args) -> i32 {
+    if args.tier == vbase::Tier::Thorough && args.get_u64("shard", 0) == 0 {
+        return run_sharded(args);
+    }
     hooks::install_panic_monitor();
     let mk = |id: &str, rule: &str| Report::new(id, "exploration", args, rule);
     let mut c04 = mk("C04", "contexts (generated chains with forks, epoch positions, proposal window offsets) x candidate transactions (valid bases and single-rule violations with thresholds computed from the model for commit position n), each judged alone in a block at n and by the pool at tip n-1, on a directly synchronised node and on a node that reached the context through another delivery order; distinct = (candidate kind, context class, path)");
